@@ -1,5 +1,6 @@
 (* Containers.v — C19: the STL-free containers as state machines.
-   MODEL: include/nmtools/utl/vector.hpp (as of the fix "destructor frees whenever buffer_ is non-null"),
+   MODEL: include/nmtools/utl/vector.hpp (as of the fixes "destructor frees whenever buffer_ is non-null" and
+   "growing resize and the sized constructor value-initialise the new cells"),
    utl/static_vector.hpp (as of the fix "static_vector(n) refuses n > Capacity"), utl/maybe.hpp, utl/either.hpp, operation for operation, on physical memory
    cells (a cell of a fresh malloc block is indeterminate) with an abstract heap that records
    allocations, frees, frees of non-live blocks and accesses outside a buffer.
@@ -46,15 +47,21 @@ Record vobj := mkV { vbuf : list cell; vsize : nat; vblk : nat }.     (* buffer_
 Definition v_new (h : heap) (n size : nat) : vobj * heap :=
   let (id, h') := halloc h in (mkV (repeat Indet n) size id, h').
 Definition v_default (h : heap) := v_new h 4 0.          (* vector(): allocate(4), size 0 *)
-Definition v_sized (h : heap) (n : nat) := v_new h n n.  (* vector(N): allocate(N), size N; resize(N) is then a no-op *)
+
+(* for (i = a; i < b; i++) buf[i] = T{}   (nothing when b <= a) *)
+Definition fill_cells (buf : list cell) (a b : nat) : list cell :=
+  firstn a buf ++ repeat (Val 0%Z) (b - a) ++ skipn (Nat.max a b) buf.
 
 (* resize: the !buffer_ arm is unreachable (every constructor allocates; malloc(0) is a block of length 0) *)
 Definition v_resize (h : heap) (o : vobj) (n : nat) : vobj * heap :=
   if length (vbuf o) <? n then
     let (id, h1) := halloc h in
     let h2 := chk h1 (vsize o <=? length (vbuf o)) in              (* memcpy(new, old, old_size) *)
-    (mkV (firstn (vsize o) (vbuf o) ++ repeat Indet (n - vsize o)) n id, hfree h2 (vblk o))
-  else (mkV (vbuf o) n (vblk o), h).
+    (* the new block has exactly n cells: [old_size, n) are value-initialised by the loop after the arms *)
+    (mkV (firstn (vsize o) (vbuf o) ++ repeat (Val 0%Z) (n - vsize o)) n id, hfree h2 (vblk o))
+  else (mkV (fill_cells (vbuf o) (vsize o) n) n (vblk o), chk h (n <=? length (vbuf o))).
+(* vector(N): allocate(N), size 0, then resize(N) value-initialises the N cells *)
+Definition v_sized (h : heap) (n : nat) : vobj * heap := let (o, h1) := v_new h n 0 in v_resize h1 o n.
 
 Definition v_set (h : heap) (o : vobj) (i : nat) (c : cell) : vobj * heap :=
   (mkV (upd (vbuf o) i c) (vsize o) (vblk o), chk h (i <? length (vbuf o))).
@@ -100,7 +107,7 @@ Section StaticVector.
   Variable Cap : nat.
   Record sobj := mkS { sbuf : list cell; ssize : nat }.
   Definition s_default : sobj := mkS (repeat (Val 0%Z) Cap) 0.       (* buffer = {} : value-initialised *)
-  Definition s_resize (o : sobj) (n : nat) : sobj := if n <=? Cap then mkS (sbuf o) n else o.
+  Definition s_resize (o : sobj) (n : nat) : sobj := if n <=? Cap then mkS (fill_cells (sbuf o) (ssize o) n) n else o.
   (* static_vector(n) { resize(n); } — after the fix: a request beyond the capacity is refused, the object stays empty *)
   Definition s_sized (n : nat) : sobj := s_resize s_default n.
   Definition s_push (o : sobj) (v : Z) : sobj :=
@@ -155,10 +162,10 @@ Section SeqSpec.
 End SeqSpec.
 
 Definition std_run (cap : option nat) := lrun Z 0%Z 0%Z (fun z => z) cap.
-(* vector: neither the sized constructor nor a growing resize initialises; static_vector: the constructor's
-   buffer is zero, a growing resize re-exposes what the cells held *)
-Definition vmask_run := lrun (option Z) None None Some None.
-Definition smask_run (Cap : nat) := lrun (option Z) (Some 0%Z) None Some (Some Cap).
+(* the same run with option-valued cells (Some v = the cell is fixed to v).  Since the fix "growing resize and the
+   sized constructor value-initialise the new cells" every cell is fixed: new cells are Some 0. *)
+Definition vmask_run := lrun (option Z) (Some 0%Z) (Some 0%Z) Some None.
+Definition smask_run (Cap : nat) := lrun (option Z) (Some 0%Z) (Some 0%Z) Some (Some Cap).
 
 (* a physical cell agrees with a masked cell; a masked cell agrees with a std cell *)
 Definition cell_ok (c : cell) (m : option Z) : Prop := match m with None => True | Some v => c = Val v end.
